@@ -56,6 +56,7 @@ fn main() {
         ("C18", "drive") => c18::drive(rest),
         ("C19", "replay") => c19::replay(rest),
         ("C19", "drive") => c19::drive(rest),
+        ("C19", "hooked") => c19::drive_hooked(rest),
         ("C20", "replay") => c20::replay(rest),
         ("C20", "drive") => c20::drive(rest),
         _ => {
